@@ -26,7 +26,7 @@ class CollectionValue(GenericValue):
             if item not in self._new_value:
                 self._new_value.append(clone(item))
 
-        if ignore_old_value() or self._old_value is undefined:
+        if self._old_value is undefined:
             return True
         else:
             return self._return(item in self._old_value)
